@@ -73,6 +73,7 @@ typedef struct sim_bufent {
 	int onstack;     /* 1 while it is in the scanner's buffer stack */
 	void *usermem;   /* memory owned by the caller (yy_scan_buffer) */
 	int exhausted;   /* in-memory buffer that was scanned to its end */
+	int memlen;      /* bytes given to yy_scan_bytes/yy_scan_string, -1 otherwise */
 } sim_bufent;
 
 typedef struct sim_inst {
@@ -142,6 +143,7 @@ int sim_wrap_next(sim_xop *op);
 void sim_wrap_done(int ret, int start);
 /* buffers */
 void sim_buf_created(void *b, int src, void *usermem, int switched);
+void sim_buf_memlen(int len);
 void sim_sync_current(void *b, FILE *in);
 void sim_log_lex(int ret, int start, int lineno);
 /* scheduler */
